@@ -42,7 +42,7 @@ static char* read_chunk(carquet_reader_t* rd, const fcol* c, int rg, int col) {
     carquet_column_reader_t* cr = carquet_reader_get_column(rd, rg, col, &err);
     if (!cr) { APP("E%d;-;-", (int)err.code); return out; }
     int64_t n = carquet_column_remaining(cr);
-    if (n < 0 || n > 1000000) { APP("R%lld;-;-", (long long)n); carquet_column_reader_free(cr); return out; }
+    if (n < 0 || n > 2000000) { APP("R%lld;-;-", (long long)n); carquet_column_reader_free(cr); return out; }
     int vs = c->ptype == 6 ? (int)sizeof(carquet_byte_array_t) : vsize(c);
     uint8_t* vals = h_alloc((size_t)(n ? n : 1) * (size_t)vs);
     memset(vals, 0xEE, (size_t)(n ? n : 1) * (size_t)vs);
@@ -397,8 +397,10 @@ static void gen_run_case(hctx* h, fcase* fc, int rep, long run, int prefix) {
     long n = run + (prefix ? 3 : 0);
     t->nrows = (int)n; t->defs = (uint8_t*)h_alloc((size_t)n); t->reps = (uint8_t*)h_alloc((size_t)n);
     long k = 0;
-    if (prefix) { t->defs[k++] = 0; t->defs[k++] = 1; t->defs[k++] = 0; }
-    for (long i = 0; i < run; i++) t->defs[k++] = 1;
+    /* runs of a million levels and more are runs of NULLs (no values: the file and the line stay small) */
+    uint8_t lvl = run >= 1000000 ? 0 : 1;
+    if (prefix) { t->defs[k++] = (uint8_t)!lvl; t->defs[k++] = lvl; t->defs[k++] = (uint8_t)!lvl; }
+    for (long i = 0; i < run; i++) t->defs[k++] = lvl;
     for (long i = 0; i < n; i++) t->reps[i] = 0;
     int nn = 0; for (long i = 0; i < n; i++) nn += t->defs[i];
     t->nvals = nn; t->vals = (uint8_t**)h_alloc((size_t)(nn ? nn : 1) * sizeof(uint8_t*)); t->vlen = (int*)h_alloc((size_t)(nn ? nn : 1) * sizeof(int));
